@@ -275,7 +275,7 @@ gsm610_read_s	(SF_PRIVATE *psf, short *ptr, sf_count_t len)
 	while (len > 0)
 	{	readcount = (len > 0x10000000) ? 0x1000000 : (int) len ;
 
-		count = gsm610_read_block (psf, pgsm610, ptr, readcount) ;
+		count = gsm610_read_block (psf, pgsm610, ptr + total, readcount) ;
 
 		total += count ;
 		len -= count ;
@@ -505,7 +505,7 @@ gsm610_write_s	(SF_PRIVATE *psf, const short *ptr, sf_count_t len)
 	while (len > 0)
 	{	writecount = (len > 0x10000000) ? 0x10000000 : (int) len ;
 
-		count = gsm610_write_block (psf, pgsm610, ptr, writecount) ;
+		count = gsm610_write_block (psf, pgsm610, ptr + total, writecount) ;
 
 		total += count ;
 		len -= count ;
